@@ -73,6 +73,7 @@ module.exports = function (repo, loadPrelude) {
     nilFunc: P('$throwNilPointerError'), Opaque: X.Opaque, String: P('$String'),
     Array: P('Array'), Map: P('Map'), newObject: P('(function(){ return {}; })'),
     mkJsFunc: P('(function(cb){ return function(){ return cb(); }; })'),
+    subslice: P('$subslice'), sliceToNativeArray: P('$sliceToNativeArray'),
     send: P('$send'), recv: P('$recv'), select: P('$select'), Chan: P('$Chan'), Int: P('$Int'),
   };
   const BASIC = { Tb: '$Bool', Ti: '$Int', Ti8: '$Int8', Ti16: '$Int16', Ti32: '$Int32', Tu: '$Uint', Tu8: '$Uint8', Tu16: '$Uint16', Tu32: '$Uint32',
@@ -198,6 +199,10 @@ module.exports = function (repo, loadPrelude) {
       case 't': return true; case 'f': return false;
       case 'sl': {
         const el = x.args.map(a => buildGo(a, T.elem));
+        if (el.length % 4 === 2) { // a prefix s[:n:n] of a longer backing array: offset 0, len = cap < backing length
+          const zero = T.elem.zero(); const s = new T(realmArrayFor(T.elem, el.concat([zero, zero])));
+          s.$offset = 0; s.$length = el.length; s.$capacity = el.length; return s;
+        }
         if (el.length % 2 === 1) { // a window into a larger backing array (exercises $offset / $sliceToNativeArray)
           const zero = T.elem.zero(); const s = new T(realmArrayFor(T.elem, [zero, zero].concat(el, [zero])));
           s.$offset = 2; s.$length = el.length; s.$capacity = el.length + 1; return s;
@@ -487,6 +492,18 @@ module.exports = function (repo, loadPrelude) {
       }
       case 'guard': return guard(Number(a[1]), a[2].split('|'));
       case 'hist': return hist(Number(a[1]), a[2].split('|'));
+      case 'slice': { // new T(backing array), then the chain of $subslice(s, lo, hi, max) calls, as compiled code does for s[lo:hi:max]
+        const E = buildTy(parseSx(a[1])); const T = R.sliceType(E);
+        const bx = parseSx(a[2]);
+        let sl = new T(realmArrayFor(E, bx.args.map(x => buildGo(x, E))));
+        try {
+          for (const tr of a[3].split('/')) { const p = tr.split(':').map(Number); sl = R.subslice(sl, p[0], p[1], p[2]); }
+        } catch (e) { if (U.isRuntimeError(e) && /slice bounds out of range/.test(e.message)) return 'panic:slice-bounds'; throw e; }
+        const ext = guarded(() => showJs(R.externalize(sl, T)));
+        const nat = R.sliceToNativeArray(sl).length;
+        const rt = guarded(() => showGo(R.internalize(R.externalize(sl, T), T), T));
+        return 'ext=' + ext + ' nat=' + nat + ' rt=' + rt;
+      }
     }
     return 'bad-op';
   };
